@@ -80,7 +80,10 @@ def run_utmp(case):
 
 
 ESC = {" ": "\\040", "\t": "\\011", "\\": "\\134"}
-DIRS = {"/": "/", "/mnt/a b": "/mnt/a b", "/mnt/tab": "/mnt/t\tb", "/mnt/bslash": "/mnt/back\\040slash"}
+DIRS = {"/": "/", "/mnt/a b": "/mnt/a b", "/mnt/tab": "/mnt/t\tb", "/mnt/bslash": "/mnt/back\\040slash",
+        # a name that is not UTF-8 (the kernel prints the bytes as they are; Python spells them with
+        # surrogate escapes so that os.fsencode() gives them back)
+        "/mnt/latin1": "/mnt/caf\udce9"}
 
 
 def esc(s):
